@@ -24,6 +24,9 @@ enum Op {
     Kml(&'static str),
     /// Host API: activate the lock with / without the `ext` package (toggles).
     ToggleSchema,
+    /// Host API: the FIRST activation of the Space (base lock), on a Space
+    /// that has already been written to.
+    FirstActivation,
 }
 
 struct StepDef {
@@ -87,7 +90,29 @@ fn alphabet() -> Vec<StepDef> {
             CREATE CONCEPT ?w { TYPE "Widget" NAME "W1" SET FIELDS {key: "w"} }
             ENSURE PROPOSITION ?l (:a_ref, "likes", ?w)
           }"#),
+        // --- the EARLY steps (not part of the enumerated alphabet): a Space
+        //     written to under Core alone, before its first activation
+        k("early-evidence", r#"CREATE EVIDENCE ?e { SET FIELDS {evidence_class: "message", payload: "before any schema", observed_at: "2026-01-01T00:00:00Z"} }"#),
+        k("early-refused", r#"CREATE CONCEPT ?x { TYPE "Person" NAME "Too early" }"#),
+        k("early-activity", r#"CREATE ACTIVITY ?act { SET FIELDS {activity_class: "tool_execution"} }"#),
+        StepDef { name: "first-activation", op: Op::FirstActivation },
+        k("early-person", r#"CREATE CONCEPT ?x { TYPE "Person" NAME "Eve" SET FIELDS {key: "e"} }"#),
     ]
+}
+
+/// How many leading entries of `alphabet()` the enumeration ranges over.
+fn enumerated(steps: &[StepDef]) -> usize {
+    steps.iter().position(|s| s.name == "early-evidence").expect("early steps")
+}
+
+/// What is special about one executed history.
+#[derive(Clone, Default)]
+struct Plan {
+    /// Starts from the never-activated database instead of the seeded one.
+    bare: bool,
+    /// `(position in the path, j, collection)`: the j-th backend mutation of
+    /// that statement fails once (nothing written).
+    fault: Option<(usize, u64, String)>,
 }
 
 /// One battery query: `head [AS OF ...] tail`.
@@ -280,47 +305,70 @@ fn replay_json(path: &[usize], steps: &[StepDef]) -> Json {
     })
 }
 
-fn run_path(content: &Content, path: &[usize], steps: &[StepDef], battery: &[Q], quick: bool) -> PathReport {
-    let nx = Nx::open(content);
+fn run_path(content: &Content, path: &[usize], plan: &Plan, steps: &[StepDef], battery: &[Q], quick: bool) -> PathReport {
+    let (nx, ctl) = match &plan.fault {
+        Some(_) => {
+            let (nx, ctl) = Nx::open_gated(content);
+            (nx, Some(ctl))
+        }
+        None => (Nx::open(content), None),
+    };
     let mut report = PathReport { path: path.to_vec(), all_committed: true, ..Default::default() };
-    let journal = nx.q("HISTORY SPACE");
-    let seed = &journal["ok"][0];
-    let mut points = vec![record(
-        &nx,
-        battery,
-        seed["space_seq"].as_u64().unwrap_or(0),
-        seed["tx_id"].as_str().unwrap_or("").to_string(),
-        seed["committed_at"].as_str().unwrap_or("").to_string(),
-        "seed",
-    )];
+    let mut points = Vec::new();
+    if !plan.bare {
+        let journal = nx.q("HISTORY SPACE");
+        let seed = &journal["ok"][0];
+        points.push(record(
+            &nx,
+            battery,
+            seed["space_seq"].as_u64().unwrap_or(0),
+            seed["tx_id"].as_str().unwrap_or("").to_string(),
+            seed["committed_at"].as_str().unwrap_or("").to_string(),
+            "seed",
+        ));
+    }
     let mut ext_active = false;
     for (i, &s) in path.iter().enumerate() {
         let last = i + 1 == path.len();
+        let faulted = matches!(&plan.fault, Some((at, _, _)) if *at == i);
+        if let (true, Some((_, j, _)), Some(ctl)) = (faulted, &plan.fault, &ctl) {
+            ctl.script(ctl.mutation_attempts() + j, vcore::ctlstore::Answer::ErrBefore);
+        }
+        let activated = |nx: &Nx, result: Result<u64, String>| match result {
+            Ok(_) => {
+                let seq = dump::space_seq(nx);
+                let row = nx.q(&format!(r#"DESCRIBE TRANSACTION "{}#{seq}""#, vnexus::fixture::SPACE));
+                Outcome::Committed {
+                    seq,
+                    tx: row["ok"]["tx_id"].as_str().unwrap_or("").to_string(),
+                    at: row["ok"]["committed_at"].as_str().unwrap_or("").to_string(),
+                }
+            }
+            Err(code) => Outcome::Refused { code },
+        };
         let outcome = match steps[s].op {
+            Op::FirstActivation => activated(&nx, nx.activate(false)),
             Op::Kml(text) => {
                 let (_, outcome) = nx.exec(&step_stmt(text, fixed_params()));
                 outcome
             }
-            Op::ToggleSchema => match nx.activate(!ext_active) {
-                Ok(_) => {
+            Op::ToggleSchema => {
+                let result = nx.activate(!ext_active);
+                if result.is_ok() {
                     ext_active = !ext_active;
-                    let seq = dump::space_seq(&nx);
-                    let row = nx.q(&format!(r#"DESCRIBE TRANSACTION "{}#{seq}""#, vnexus::fixture::SPACE));
-                    Outcome::Committed {
-                        seq,
-                        tx: row["ok"]["tx_id"].as_str().unwrap_or("").to_string(),
-                        at: row["ok"]["committed_at"].as_str().unwrap_or("").to_string(),
-                    }
                 }
-                Err(code) => Outcome::Refused { code },
-            },
+                activated(&nx, result)
+            }
         };
+        if let (true, Some(ctl)) = (faulted, &ctl) {
+            ctl.reset_faults();
+        }
         report.statements += 1;
         report.labels.push(outcome.label());
         let committed = matches!(outcome, Outcome::Committed { .. });
         if !committed {
             report.all_committed = false;
-            if !last {
+            if !last && !faulted && steps[s].name != "early-refused" {
                 // a prefix must be a committed history: the enumeration only
                 // extends those, so this is a determinism failure
                 vcore::report::machinery(&format!("prefix step {} of {:?} did not commit: {}", steps[s].name, path, outcome.label()));
@@ -336,7 +384,11 @@ fn run_path(content: &Content, path: &[usize], steps: &[StepDef], battery: &[Q],
     let journal = nx.q("HISTORY SPACE");
     let rows = journal["ok"].as_array().cloned().unwrap_or_default();
     let last_step = path.last().map(|s| steps[*s].name).unwrap_or("nothing");
-    let replay = replay_json(path, steps);
+    let mut replay = replay_json(path, steps);
+    replay["bare"] = json!(plan.bare);
+    if let Some((at, j, collection)) = &plan.fault {
+        replay["fault"] = json!({"position": at, "mutation": j, "collection": collection});
+    }
     for point in &points {
         let mut coordinates: Vec<(&'static str, String)> = vec![("seq", format!(" AS OF SEQ {}", point.seq))];
         if !point.tx.is_empty() {
@@ -371,8 +423,14 @@ fn run_path(content: &Content, path: &[usize], steps: &[StepDef], battery: &[Q],
                     let mut replay = replay.clone();
                     replay["observed"] = json!({"query": what, "point_seq": point.seq, "recorded_after": point.after_step,
                                                 "replayed_after": last_step, "recorded": live, "replayed": then});
+                    let signature = match &plan.fault {
+                        // one signature per failed collection: the cause is the
+                        // failed write, whichever query family shows it
+                        Some((_, _, collection)) => format!("C18|as-of-differs-after-storage-fault|fault-on-{collection}"),
+                        None => format!("C18|{class}|{family}"),
+                    };
                     report.violations.push(Violation {
-                        signature: format!("C18|{class}|{family}"),
+                        signature,
                         summary: format!(
                             "`{what}` answered {} when seq {} (after `{}`) was current and {} when replayed after `{last_step}`",
                             short(live), point.seq, point.after_step, short(then)
@@ -473,7 +531,14 @@ fn main() {
             .iter()
             .map(|n| steps.iter().position(|s| Some(s.name) == n.as_str()).expect("step name"))
             .collect();
-        let report = run_path(content, &path, &steps, &battery, false);
+        let plan = Plan {
+            bare: doc["replay"]["bare"].as_bool().unwrap_or(false),
+            fault: doc["replay"]["fault"].as_object().map(|f| {
+                (f["position"].as_u64().unwrap_or(0) as usize, f["mutation"].as_u64().unwrap_or(0), f["collection"].as_str().unwrap_or("").to_string())
+            }),
+        };
+        let bare = World::bare();
+        let report = run_path(if plan.bare { &bare } else { content }, &path, &plan, &steps, &battery, false);
         println!("replay: {:?} -> {:?}", path.iter().map(|i| steps[*i].name).collect::<Vec<_>>(), report.labels);
         for v in report.violations {
             run.violation(v);
@@ -483,9 +548,97 @@ fn main() {
 
     let max_depth: usize = run.tier.pick(3, 5);
     let threads = util::n_threads();
+    let n_enumerated = enumerated(&steps);
+    let quick = run.tier == vcore::Tier::Quick;
+    let index = |name: &str| steps.iter().position(|s| s.name == name).expect("step name");
+    let mut by_kind: BTreeMap<&'static str, u64> = BTreeMap::new();
+    let absorb = |run: &mut Run, by_kind: &mut BTreeMap<&'static str, u64>, report: PathReport, tag: &str| -> bool {
+        run.add("traces_validated_against_impl", 1);
+        run.add("states", 1);
+        run.add("transitions", report.statements);
+        run.add("evaluations", report.comparisons);
+        run.add("nontrivial_comparisons", report.nontrivial);
+        run.add("as_of_time_skipped_same_ms", report.time_skipped);
+        run.add("points_recorded", report.points);
+        for (kind, n) in &report.comparisons_by_kind {
+            *by_kind.entry(kind).or_insert(0) += n;
+        }
+        let names: Vec<&str> = report.path.iter().map(|i| steps[*i].name).collect();
+        let last = report.labels.last().cloned().unwrap_or_else(|| "seed".into());
+        run.add(&format!("last_step_{}", last.split(':').next().unwrap_or("?")), 1);
+        run.distinct(util::fnv64(format!("{tag}|{names:?}|{:?}", report.labels).as_bytes()));
+        if !tag.is_empty() && report.path.len() % 2 == 0 {
+            run.sample(json!({"kind": tag, "history": names, "outcomes": report.labels, "points": report.points, "comparisons": report.comparisons}));
+        }
+        let clean = report.violations.is_empty();
+        for v in report.violations {
+            run.violation(v);
+        }
+        clean
+    };
+
+    // (A) EARLY: a Space written to under Core alone (a commit, a refused
+    // statement that burns a sequence, another commit) before its FIRST
+    // activation; the early points are replayed after the activation and
+    // after later writes / activations.
+    {
+        let bare = World::bare();
+        let early = ["early-evidence", "early-refused", "early-activity", "first-activation"].map(index).to_vec();
+        let tails: Vec<Vec<&str>> = vec![vec![], vec!["early-person"], vec!["toggle-schema"], vec!["early-person", "toggle-schema"], vec!["toggle-schema", "early-person"]];
+        let jobs: Vec<Vec<usize>> = tails
+            .iter()
+            .map(|tail| early.iter().copied().chain(tail.iter().map(|n| index(n))).collect())
+            .chain([early[..1].to_vec(), early[..3].to_vec()])
+            .collect();
+        let plan = Plan { bare: true, fault: None };
+        let reports = util::par_map(jobs, threads, |path| run_path(&bare, &path, &plan, &steps, &battery, quick));
+        run.set("early_histories", json!(reports.len()));
+        for report in reports {
+            absorb(&mut run, &mut by_kind, report, "early");
+        }
+    }
+
+    // (B) FAULT: a modifying statement whose j-th backend mutation fails once
+    // (nothing written, the statement answers an error), followed by two
+    // committed statements; every point is replayed at the end.
+    {
+        let modifying: Vec<&str> = if quick {
+            vec!["rename-a", "archive-b", "supersede"]
+        } else {
+            vec!["rename-a", "decay-n", "relink-n", "archive-b", "tombstone-d", "retract", "supersede", "merge-b-into-a", "archive-status-off"]
+        };
+        let mut jobs: Vec<(Vec<usize>, Plan)> = Vec::new();
+        let mut per_step = Vec::new();
+        for name in modifying {
+            // the backend mutations of the uninterrupted statement
+            let (nx, ctl) = Nx::open_gated(content);
+            let from = ctl.journal_len();
+            let Op::Kml(text) = steps[index(name)].op else { continue };
+            let (_, outcome) = nx.exec(&step_stmt(text, fixed_params()));
+            if !matches!(outcome, Outcome::Committed { .. }) {
+                vcore::report::machinery(&format!("fault step {name} does not commit unfaulted: {}", outcome.label()));
+            }
+            let mutations: Vec<String> = ctl.journal_from(from).iter().map(|e| e.mutation.path().to_string()).collect();
+            let journal_at = mutations.iter().position(|m| m.contains("/transactions/data/")).unwrap_or(mutations.len());
+            let upto = if quick { (journal_at + 2).min(mutations.len()) } else { mutations.len() };
+            per_step.push(json!({"step": name, "backend_mutations": mutations.len(), "faulted": upto}));
+            for (j, path) in mutations.iter().enumerate().take(upto) {
+                let collection = path.split('/').nth(1).unwrap_or("?").to_string();
+                jobs.push((
+                    vec![index(name), index("create-c"), index("extend-rel")],
+                    Plan { bare: false, fault: Some((0, j as u64, collection)) },
+                ));
+            }
+        }
+        let reports = util::par_map(jobs, threads, |(path, plan)| run_path(content, &path, &plan, &steps, &battery, quick));
+        run.set("fault_histories", json!(reports.len()));
+        run.set("fault_steps", json!(per_step));
+        for report in reports {
+            absorb(&mut run, &mut by_kind, report, "fault");
+        }
+    }
     let mut frontier: Vec<Vec<usize>> = vec![vec![]];
     let mut completed_depth = 0;
-    let mut by_kind: BTreeMap<&'static str, u64> = BTreeMap::new();
     'levels: for depth in 0..=max_depth {
         let jobs: Vec<Vec<usize>> = if depth == 0 {
             vec![vec![]]
@@ -493,7 +646,7 @@ fn main() {
             frontier
                 .iter()
                 .flat_map(|prefix| {
-                    (0..steps.len()).map(move |s| {
+                    (0..n_enumerated).map(move |s| {
                         let mut path = prefix.clone();
                         path.push(s);
                         path
@@ -518,29 +671,12 @@ fn main() {
                 run.cap_hit(&format!("time budget: stopped inside depth {depth} after {done}/{total} histories"));
                 break 'levels;
             }
-            let quick = run.tier == vcore::Tier::Quick;
-            let reports = util::par_map(chunk.to_vec(), threads, |path| run_path(content, &path, &steps, &battery, quick));
+            let plan = Plan::default();
+            let reports = util::par_map(chunk.to_vec(), threads, |path| run_path(content, &path, &plan, &steps, &battery, quick));
             for report in reports {
-                run.add("traces_validated_against_impl", 1);
-                run.add("states", 1);
-                run.add("transitions", report.statements);
-                run.add("evaluations", report.comparisons);
-                run.add("nontrivial_comparisons", report.nontrivial);
-                run.add("as_of_time_skipped_same_ms", report.time_skipped);
-                run.add("points_recorded", report.points);
-                for (kind, n) in &report.comparisons_by_kind {
-                    *by_kind.entry(kind).or_insert(0) += n;
-                }
-                let names: Vec<&str> = report.path.iter().map(|i| steps[*i].name).collect();
-                let last = report.labels.last().cloned().unwrap_or_else(|| "seed".into());
-                run.add(&format!("last_step_{}", last.split(':').next().unwrap_or("?")), 1);
-                run.distinct(util::fnv64(format!("{names:?}|{last}").as_bytes()));
-                if report.path.len() == max_depth.min(3) && report.all_committed && report.path[0] % 4 == 1 {
-                    run.sample(json!({"history": names, "outcomes": report.labels, "points": report.points, "comparisons": report.comparisons}));
-                }
-                for v in report.violations {
-                    run.violation(v);
-                }
+                let (path, all_committed) = (report.path.clone(), report.all_committed);
+                absorb(&mut run, &mut by_kind, report, "");
+                let report = PathReport { path, all_committed, ..Default::default() };
                 if report.all_committed && depth > 0 {
                     next.push(report.path.clone());
                 }
@@ -556,13 +692,16 @@ fn main() {
     }
     run.set("completed_depth", json!(completed_depth));
     run.set("battery_queries", json!(battery.len() + 2));
-    run.set("alphabet", json!(steps.iter().map(|s| s.name).collect::<Vec<_>>()));
+    run.set("alphabet", json!(steps[..n_enumerated].iter().map(|s| s.name).collect::<Vec<_>>()));
     run.set("comparisons_by_coordinate", json!(by_kind));
     run.rule(
         "HIST: all histories over the step alphabet from the seeded Space (quick: depth 1 whole alphabet, depth 2 = whole alphabet x the 12 later-mutation representatives LATER, depth 3 = the 3 representatives CORE; thorough: whole alphabet at every depth), a history being extended only while every step commits \
          (refused / no_effect steps are executed and replayed after, then pruned); the battery is recorded live after the seed and after \
          every commit, and after the LAST statement of each history every recording is replayed AS OF SEQ (whole battery) and \
          AS OF TX / AS OF TIME (3 whole-kind queries + META) and through read.snapshot_token (the name-resolution / schema dependent queries); distinct = (history, last outcome); nontrivial = recorded answer was non-empty",
+    );
+    run.rule(
+        "EARLY: the fixed histories [evidence, refused Person, activity] under Core alone, then the first activation, then {nothing, a Person, an activation, both in either order} from a never-activated database;          FAULT: for each modifying step (quick: rename, archive, supersede) and every backend mutation j of it (quick: up to 2 past the journal row) that mutation fails once with nothing written, then two committed statements follow and every point is replayed",
     );
     run.assume("commit timestamps are wall-clock ms (chrono::Utc::now, not the verif clock): AS OF TIME is replayed only for points whose timestamp is strictly below every later transaction's (skips are counted); in the quick tier only for the seed point");
     run.assume("belief queries are pinned with FOR TIME; the replay compares the `result` of the response (or its error code) and the schema_environment_version of the response context, nothing else of the envelope");
